@@ -68,10 +68,54 @@ def acting_act_scenario():
     return {"id": "c03-acting-act", "config": {"keep": True, "dump_each": True}, "models": [w], "ops": ops, "exprs": {"true": ["lit", True]}, "features": ["action-act", "catch", "branches"]}
 
 
+def queued_scenario(rng, i):
+    """a task that is closed while it still waits in the scheduler queue: an answer creates the next act of a chain, and before the scheduler
+    runs it the process is ended (or the step closed) from another branch"""
+    chain = [{"id": f"x{j}", "uses": gen.IRQ if j != 2 or rng.chance(2, 3) else gen.MSG, "key": f"kx{j}"} for j in range(1, rng.range(3, 4) + 1)]
+    other = [{"id": "y1", "uses": gen.IRQ, "key": "ky1"}]
+    w = {"id": "m1", "steps": [{"id": "s1", "branches": [{"id": "b1", "if": "true", "steps": [{"id": "s11", "acts": chain}]},
+                                                        {"id": "b2", "if": "true", "steps": [{"id": "s12", "acts": other}]}]},
+                               {"id": "s2", "acts": [{"id": "a9", "uses": gen.IRQ, "key": "ka9"}]}]}
+    ops = [["deploy", 0], ["start", "m1", {"pid": "p1", "x": 0, "y": 0}], ["runall"],
+           ["act", "next", "p1", {"nid": "x1", "k": 0}, {}]]
+    if rng.chance(1, 3):
+        ops.append(["run", 0])
+    ops.append(["act", rng.pick(["abort", "abort", "error", "skip"]), "p1", {"nid": "y1", "k": 0}, {"ecode": "e1", "message": "x"}])
+    ops.append(["runall", rng.pick(["fifo", "lifo"]), rng.below(1 << 30)])
+    for _ in range(4):
+        ops.append(["act", "next", "p1", {"open": 0}, {}])
+        ops.append(["runall"])
+    return {"id": f"c03-q-{i}", "config": {"keep": rng.chance(2, 3), "dump_each": True}, "models": [w], "ops": ops, "exprs": {"true": ["lit", True]},
+            "features": ["branches", "queued"]}
+
+
+def failing_hook_scenario(rng, i):
+    """a lifecycle hook whose act fails after its owner — the last step, or the whole process — has reported its end: the ending stays what it was"""
+    bad = {"uses": gen.CODE, "on": rng.pick(["completed", "completed", "updated", "step"]), "params": "throw new Error('hook failed');"}
+    steps = [{"id": f"s{j}", "acts": [{"id": f"a{j}", "uses": gen.IRQ if rng.chance(2, 3) else gen.MSG, "key": f"ka{j}"}]} for j in range(1, rng.range(1, 3) + 1)]
+    w = {"id": "m1", "steps": steps}
+    where = rng.below(3)
+    if where == 0:
+        w["setup"] = [bad]
+    elif where == 1:
+        steps[-1]["setup"] = [bad]
+    else:
+        steps[-1]["acts"][-1]["setup"] = [dict(bad, on="completed")]
+    ops = [["deploy", 0], ["start", "m1", {"pid": "p1", "x": 0, "y": 0}], ["runall"]]
+    for _ in range(5):
+        ops.append(["act", "next", "p1", {"open": 0}, {}])
+        ops.append(["runall", rng.pick(["fifo", "lifo"]), rng.below(1 << 30)])
+    return {"id": f"c03-fh-{i}", "config": {"keep": rng.chance(2, 3), "dump_each": True}, "models": [w], "ops": ops, "exprs": {}, "features": ["hooks", "failing-hook"]}
+
+
 def gen_scenario(seed, i):
     if i == 0:
         return acting_act_scenario()
     rng = Rng(seed * 179424673 + i)
+    if i % 8 == 1:
+        return failing_hook_scenario(rng, i)
+    if i % 8 == 5:
+        return queued_scenario(rng, i)
     if i % 8 == 7:
         return handler_family(rng, i)
     g = gen.WfGen(rng.fork("wf"), depth=rng.pick([1, 2, 2]), max_steps=3, max_branches=3, max_acts=3, p_if=10, p_branches=60,
@@ -109,6 +153,9 @@ def events_of(sc, res):
     evs = []
     where = []
     hooks = set()
+    # which tasks are hook acts is known from the dumps (the mark is set right after the task is created): the monitor is told at creation
+    hook_tids = {t["tid"] for st in res.get("steps", []) for o in st["obs"] if o.get("k") == "dump" and o.get("pid") == "p1" and not o.get("absent")
+                 for t in o["tasks"] if t["data"].get("$is_event_processed")}
     for st in res.get("steps", []):
         i = st["op"]
         obs = st["obs"]
@@ -118,6 +165,15 @@ def events_of(sc, res):
                 continue
             if k == "new":
                 evs.append(["new", o["tid"], o["kind"], o.get("level", 0), o.get("prev")])
+                where.append(i)
+                if o["tid"] in hook_tids and o["tid"] not in hooks:
+                    hooks.add(o["tid"])
+                    evs.append(["hook", o["tid"]])
+                    where.append(i)
+            elif k == "hookact" and o["tid"] not in hooks:
+                # the engine's own record that the task just created is the act of a lifecycle hook
+                hooks.add(o["tid"])
+                evs.append(["hook", o["tid"]])
                 where.append(i)
             elif k == "tr":
                 evs.append(["tr", o["tid"], o["new"]])
